@@ -1,6 +1,6 @@
 /-
   C18 model driver. Line protocol (S-expressions, one per line):
-    (hash "<text>" "<hex of Go's sha256(text)>")   → ok       -- extends the digest table
+    (hash "<text>" "<hex of Go's sha256(text)>")   → ok | sha-mismatch   -- Lean's SHA-256 (the driver's H) vs Go's
     (reset)                                        → ok       -- empty storage
     (req "<query>" none)                           → reply
     (req "<query>" (ext one|other none|"<hashHex>"))→ reply
@@ -10,6 +10,7 @@
 import ApiFu.Common.Sexp
 import ApiFu.Common.Loop
 import ApiFu.C18.Model
+import ApiFu.C18.Sha256
 
 open ApiFu ApiFu.C18
 
@@ -42,7 +43,7 @@ def outSexp : Out → Sexp
 def handle (st : St) (line : String) : St × String :=
   match Sexp.parse line with
   | some (Sexp.list [Sexp.atom "hash", Sexp.atom t, Sexp.atom hex]) =>
-    ({ st with table := (t, hexDecodePrefix hex.toList) :: st.table }, "ok")
+    (st, if Sha256.ofString t == hexDecodePrefix hex.toList then "ok" else "sha-mismatch " ++ toHex (Sha256.ofString t))
   | some (Sexp.list [Sexp.atom "reset"]) => ({ st with storage := [] }, "ok")
   | some (Sexp.list [Sexp.atom "req", Sexp.atom q, e]) =>
     let ext? : Option (Option Ext) :=
@@ -56,8 +57,7 @@ def handle (st : St) (line : String) : St × String :=
     match ext? with
     | none => (st, "bad-op")
     | some ext =>
-      if !(known st.table "") || (q != "" && !(known st.table q)) then (st, "unknown-text") else
-      let (s', calls, out) := step (lookupH st.table) st.storage { query := q, ext := ext }
+      let (s', calls, out) := step Sha256.ofString st.storage { query := q, ext := ext }
       ({ st with storage := s' }, toString (Sexp.node "out" [outSexp out, Sexp.list (calls.map callSexp)]))
   | _ => (st, "bad-op")
 
